@@ -1,38 +1,57 @@
 (* C05 driver: one case (= one whole history) per input line, one result line per case.
-   case:   <kind> <maxConf|d> <maxTerm|d> <op> <op> ...
+   case:   <kind> <maxConf|d> <maxTerm|d> <op> <op> ...            (sequential history)
+           conc <maxConf|d> <maxTerm|d> <op> ... / <gate> <opA> <opB>  (forced overlap, see harness)
            kind = fsm (mock option handler, proto LCP) | ncp (mock handler, proto IPCP)
                   | lcp | ipcp | ipv6cp (real handlers)
-           op   = U | D | O | C | T | I<code>.<id>.<cls>.<dlen>
+           op   = U | D | O | C | T | I<code>.<id>.<cls>.<dlen>[.<hex data>]
                   id  = c (current lastReqID) | s (lastReqID+1) | p (lastReqID-1) | decimal
-                  cls = g | n | r | b | m     (handler's answer to a Configure-Request / malformed data)
-   result: per op   <state>/<restartCount>/<armed>/<lastReqID>/<id>/<failCount>:<actions>
-           actions = comma separated  scr.<id>.<tag> sca. scn. srj. str. sta. scj. ser. tlu tld tls tlf | -
-   argv[3] = variant: repaired (both fix patches) | defective (fsm.go as it stands)
+                  cls = g | n | r | b | m     (handler's answer to a Configure-Request; m = data does not parse)
+                  data = the hex bytes if given, else <dlen> bytes a0 a1 ...
+   result: per op   <state>/<restartCount>/<armed>/<lastReqID>/<id>/<failCount>:<actions>:<handler call>
+           actions = comma separated  scr.<id>.<hex content> sca.<id>.<tag> scn. srj. str. sta. scj. ser. tlu tld tls tlf | -
+           handler call = R|A|N|J (ProcessConfReq/Ack/Nak/Rej) followed by the hex of the options passed | -
+           a conc case prints the prefix steps, one combined step for the pair, then "alt=ok term=ok".
+   argv[3] = variant: repaired (both fix patches) | defective (fsm.go before the fixes)
              | cells_unfixed (only the NCP patch applied) | ncp_unfixed (only the cells patch applied).
    Every step of the repaired variant is also re-checked against the RFC table by the extracted
    [conformsb] (guards the extraction); a failure prints MODELBUG. *)
 let z_of_int (i : int) : z = if i = 0 then Z0 else if i > 0 then Zpos (pos_of_int i) else Zneg (pos_of_int (-i))
 let int_of_z (x : z) : int = match x with Z0 -> 0 | Zpos p -> int_of_pos p | Zneg p -> - (int_of_pos p)
+let zbytes_of_hex (t : string) : z list =
+  List.init (String.length t / 2) (fun i -> z_of_int (int_of_string ("0x" ^ String.sub t (2*i) 2)))
+let hex_of_zbytes (l : z list) : string =
+  if l = [] then "-" else String.concat "" (List.map (fun x -> Printf.sprintf "%02x" (int_of_z x land 255)) l)
 
 let cls_of = function "g" -> CGood | "n" -> CNak | "r" -> CRej | "b" -> CBoth | "m" -> CMalformed
                     | s -> failwith ("cls " ^ s)
 
-let show_act mock a =
+let show_act mock kindn log edata a =
   let t x = if mock then x else "*" in
   let p name id tag = Printf.sprintf "%s.%d.%s" name (int_of_z id) tag in
   match a with
   | Irc | Zrc -> None
-  | Scr i -> Some (p "scr" i (t "Q"))
-  | Sca i -> Some (p "sca" i (t "A"))
-  | Scn i -> Some (p "scn" i (t "N"))
-  | Screj i -> Some (p "srj" i (t "R"))
+  | Scr i -> Some (p "scr" i (hex_of_zbytes (confreq_content kindn log)))
+  | Sca i -> Some (p "sca" i (t (hex_of_zbytes (serialize (match parse_opts edata with Some o -> o | None -> [])))))
+  | Scn i -> Some (p "scn" i (t "010405dc"))
+  | Screj i -> Some (p "srj" i (t "0702"))
   | Str i -> Some (p "str" i "-")
   | Sta i -> Some (p "sta" i "-")
-  | Scj (i, _, _) -> Some (p "scj" i "P")
-  | Ser i -> Some (p "ser" i "E")
+  | Scj (i, rc, ri) -> Some (p "scj" i (Printf.sprintf "%d-%d-%d" (int_of_z rc) (int_of_z ri) (List.length edata)))
+  | Ser i -> Some (p "ser" i (hex_of_zbytes edata))
   | Tlu -> Some "tlu" | Tld -> Some "tld" | Tls -> Some "tls" | Tlf -> Some "tlf"
 
+let show_hcall = function
+  | HReq o -> "R" ^ hex_of_zbytes (serialize o)
+  | HAck o -> "A" ^ hex_of_zbytes (serialize o)
+  | HNak o -> "N" ^ hex_of_zbytes (serialize o)
+  | HRej o -> "J" ^ hex_of_zbytes (serialize o)
+
 let filter_map f l = List.fold_right (fun x acc -> match f x with Some y -> y :: acc | None -> acc) l []
+let rec take k l = if k <= 0 then [] else match l with x :: r -> x :: take (k-1) r | [] -> []
+let rec split_at x = function
+  | [] -> ([], None)
+  | y :: r when y = x -> ([], Some r)
+  | y :: r -> let (a, b) = split_at x r in (y :: a, b)
 
 let () =
   let lines = read_lines Sys.argv.(1) in
@@ -44,38 +63,70 @@ let () =
     | _ -> { fix_cells = true; fix_ncp = true } in
   List.iter (fun line ->
     match tokens line with
-    | kind :: mc :: mt :: ops ->
+    | kind0 :: mc :: mt :: ops ->
       (try
+        let conc = (kind0 = "conc") in
+        let kind = if conc then "fsm" else kind0 in
         let mock = (kind = "fsm" || kind = "ncp") in
         let is_lcp = (kind = "fsm" || kind = "lcp") in
+        let kindn = z_of_int (match kind with "lcp" -> 1 | "ipcp" -> 2 | "ipv6cp" -> 3 | _ -> 0) in
         let c = { maxConf = (if mc = "d" then default_cfg.maxConf else z_of_int (int_of_string mc));
                   maxTerm = (if mt = "d" then default_cfg.maxTerm else z_of_int (int_of_string mt));
                   lcp = is_lcp } in
         let f = ref init in
-        let outl = List.map (fun op ->
+        let all_items = ref [] in
+        (* one event: returns (obs string, action strings, handler-call strings) *)
+        let do_op ?last op =
           let e = match op with
             | "U" -> EUp | "D" -> EDown | "O" -> EOpen | "C" -> EClose | "T" -> ETimeout
             | _ when String.length op > 1 && op.[0] = 'I' ->
               (match String.split_on_char '.' (String.sub op 1 (String.length op - 1)) with
-               | [code; id; cl; dlen] ->
-                 let last = int_of_z (!f).lastReq in
+               | code :: id :: cl :: dlen :: rest ->
+                 let last = match last with Some l -> l | None -> int_of_z (!f).lastReq in
                  let idv = match id with
                    | "c" -> last | "s" -> (last + 1) land 255 | "p" -> (last + 255) land 255
                    | s -> int_of_string s in
-                 EInput (z_of_int (int_of_string code), z_of_int idv, cls_of cl, z_of_int (int_of_string dlen))
+                 let data = match rest with
+                   | [h] -> zbytes_of_hex h
+                   | _ -> List.init (int_of_string dlen) (fun i -> z_of_int (0xa0 + i)) in
+                 let k = cls_of cl in
+                 if int_of_string code = 1 && ((parse_opts data = None) <> (k = CMalformed)) then failwith "cls/data";
+                 EInput (z_of_int (int_of_string code), z_of_int idv, k, data)
                | _ -> failwith "bad input op")
             | _ -> failwith ("bad op " ^ op) in
           let f' = step c v !f e in
           let bug = (vname = "repaired") &&
                     not (conformsb c !f e f' && ids_okb !f e (outs f') &&
                          int_of_z f'.restart = int_of_z (counter_after c !f e (outs f'))) in
+          let ncalls = List.length f'.hlog - List.length (!f).hlog in
+          let hc = List.rev_map show_hcall (take ncalls f'.hlog) in
           f := f';
+          all_items := !all_items @ (IEv e :: List.map (fun a -> IAct a) (outs f'));
           let (((((s, r), a), l), i), fl) = obs f' in
-          let acts = filter_map (show_act mock) (outs f') in
-          Printf.sprintf "%d/%d/%d/%d/%d/%d:%s%s" (int_of_z s) (int_of_z r) (if a then 1 else 0)
-            (int_of_z l) (int_of_z i) (int_of_z fl)
-            (if acts = [] then "-" else String.concat "," acts)
-            (if bug then ",MODELBUG" else "")) ops in
-        print_endline (if outl = [] then "empty" else String.concat " " outl)
+          let edata = match e with EInput (_, _, _, d) -> d | _ -> [] in
+          let acts = filter_map (show_act mock kindn f'.hlog edata) (outs f') @ (if bug then ["MODELBUG"] else []) in
+          (Printf.sprintf "%d/%d/%d/%d/%d/%d" (int_of_z s) (int_of_z r) (if a then 1 else 0)
+             (int_of_z l) (int_of_z i) (int_of_z fl), acts, hc) in
+        let fmt (o, acts, hc) =
+          Printf.sprintf "%s:%s:%s" o (if acts = [] then "-" else String.concat "," acts)
+            (if hc = [] then "-" else String.concat "," hc) in
+        if not conc then begin
+          let outl = List.map (fun op -> fmt (do_op op)) ops in
+          print_endline (if outl = [] then "empty" else String.concat " " outl)
+        end else begin
+          match split_at "/" ops with
+          | (prefix, Some [gate; a; b]) ->
+            let pre = List.map (fun op -> fmt (do_op op)) prefix in
+            let last0 = int_of_z (!f).lastReq in   (* both identifiers are resolved before A starts *)
+            let (_, aa, ha) = do_op a in
+            let (ob, ab, hb) = do_op ~last:last0 b in
+            let alt = if alternates false !all_items then "alt=ok" else "alt=BAD" in
+            let is_note x = List.mem x ["tlu"; "tld"; "tls"; "tlf"] in
+            let hit x = match gate with "a" -> true | "s" -> not (is_note x) | "n" -> is_note x
+                                      | "u" -> x = "tlu" | "d" -> x = "tld" | _ -> false in
+            let ov = if List.exists hit aa then "ov=1" else "ov=0" in
+            print_endline (String.concat " " (pre @ [fmt (ob, aa @ ab, ha @ hb); ov; alt; "term=ok"]))
+          | _ -> failwith "bad conc case"
+        end
       with Failure m -> print_endline ("badcase " ^ m))
     | _ -> print_endline "badline") lines
